@@ -225,5 +225,15 @@ func (c *SRPClient) Compute(salt, B []byte, password string) error {
 	return nil
 }
 
+// ProofFor computes the client proof M1 for arbitrary (public) inputs.
+func (c *SRPClient) ProofFor(salt, A, B, K []byte) []byte {
+	hn, hg := sha(srpN.Bytes()), sha(srpG.Bytes())
+	xor := make([]byte, len(hn))
+	for i := range hn {
+		xor[i] = hn[i] ^ hg[i]
+	}
+	return sha(xor, sha([]byte("Pair-Setup")), salt, A, B, K)
+}
+
 // ExpectedM2 is the accessory proof H(A | M1 | K).
 func (c *SRPClient) ExpectedM2() []byte { return sha(c.A, c.M1, c.K) }
